@@ -354,4 +354,105 @@ def uniformDiscr (ofNat : Nat → R) (specs : List (AxSpec R)) (p : Expo R)
 
 end tree
 
+/-! ### custom inner / norm / dist (`weighting.py`: `CustomInner`, `CustomNorm`, `CustomDist`)
+
+`NumpyTensorSpaceCustom*` and `ProductSpaceCustom*` add nothing to these base classes except
+`impl='numpy'`; `NumpyTensorSpace._inner/_norm/_dist` and `ProductSpace._inner/_norm/_dist` are
+`self.weighting.inner/norm/dist`.  `E` is the element type (`x1 - x2` is the space's own
+subtraction, passed as `sub`). -/
+section custom
+
+/-- A user-supplied weighting: `inner=f`, `norm=g` or `dist=d`. -/
+inductive Custom (K R E : Type) where
+  | inner (f : E → E → K)
+  | norm (g : E → R)
+  | dist (d : E → E → R)
+
+/-- `weighting.exponent`: `CustomInner` passes `exponent=2.0`, `CustomNorm` and `CustomDist`
+pass `exponent=1.0` to `Weighting.__init__`. -/
+def Custom.expo {K R E : Type} : Custom K R E → Expo R
+  | .inner _ => .two
+  | .norm _ => .one
+  | .dist _ => .one
+
+/-- `weighting.inner(x1, x2)`: the user's callable; `none` = `NotImplementedError`
+(`CustomNorm.inner`, `CustomDist.inner`). -/
+def cInner {K R E : Type} : Custom K R E → E → E → Option K
+  | .inner f, x, y => some (f x y)
+  | .norm _, _, _ => none
+  | .dist _, _, _ => none
+
+/-- `weighting.norm(x)`: `CustomInner` inherits `Weighting.norm = sqrt(inner(x, x).real)`;
+`CustomNorm.norm` is the user's callable; `CustomDist.norm` raises `NotImplementedError`. -/
+def cNorm {K R E : Type} (re : K → R) (sqrt : R → R) : Custom K R E → E → Option R
+  | .inner f, x => some (sqrt (re (f x x)))
+  | .norm g, x => some (g x)
+  | .dist _, _ => none
+
+/-- `weighting.dist(x1, x2)`: `CustomInner` and `CustomNorm` inherit
+`Weighting.dist = norm(x1 - x2)`; `CustomDist.dist` is the user's callable. -/
+def cDist {K R E : Type} (re : K → R) (sqrt : R → R) (sub : E → E → E) :
+    Custom K R E → E → E → Option R
+  | .dist d, x, y => some (d x y)
+  | .inner f, x, y => cNorm re sqrt (.inner f) (sub x y)
+  | .norm g, x, y => cNorm re sqrt (.norm g) (sub x y)
+
+variable {K R : Type} [OfNat K 0] [Add K] [Mul K] [Sub K]
+  [OfNat R 0] [OfNat R 1] [OfNat R 2] [Add R] [Sub R] [Mul R] [Div R] [Max R]
+
+/-- array subtraction `x1 - x2` -/
+def vsub (x y : Nat → K) : Nat → K := fun i => x i - y i
+
+/-- `DiscretizedSpace._inner` over a tensor space with a custom weighting: the boundary
+entries of `x` are scaled by the cell fractions (`exponent=1.0`) when the partition is uniform
+and not all fractions are close to 1, then `tspace.inner`. -/
+def cdInner (o : IOps K R) (close1 : R → Bool) (unif : Bool) (axes : List (Axis R))
+    (c : Custom K R (Nat → K)) (x y : Nat → K) : Option K :=
+  if scalesBoundary close1 unif axes (.const 1) c.expo then
+    cInner c (fun i => x i * o.rK (bfac close1 (fun f => f) axes i)) y
+  else cInner c x y
+
+/-- `DiscretizedSpace._norm` over a custom weighting: scaling by `frac ** (1 / exponent)` with
+the exponent of the custom weighting (2 for `inner=`, 1 for `norm=` / `dist=`). -/
+def cdNorm (o : Ops K R) (rt : Roots R) (unif : Bool) (axes : List (Axis R))
+    (c : Custom K R (Nat → K)) (x : Nat → K) : Option R :=
+  if scalesBoundary rt.close1 unif axes (.const 1) c.expo then
+    cNorm o.re rt.sqrt c
+      (fun i => x i * o.rK (bfac rt.close1 (fun f => rt.rpow f c.expo.inv) axes i))
+  else cNorm o.re rt.sqrt c x
+
+/-- `DiscretizedSpace._dist` over a custom weighting: both arguments scaled, then
+`tspace.dist`. -/
+def cdDist (o : Ops K R) (rt : Roots R) (unif : Bool) (axes : List (Axis R))
+    (c : Custom K R (Nat → K)) (x y : Nat → K) : Option R :=
+  if scalesBoundary rt.close1 unif axes (.const 1) c.expo then
+    cDist o.re rt.sqrt vsub c
+      (fun i => x i * o.rK (bfac rt.close1 (fun f => rt.rpow f c.expo.inv) axes i))
+      (fun i => y i * o.rK (bfac rt.close1 (fun f => rt.rpow f c.expo.inv) axes i))
+  else cDist o.re rt.sqrt vsub c x y
+
+/-! Families of user callables that the check passes to the real code and the driver executes
+(they are user code, not ODL code; the theorems show that they satisfy the conditions the
+docstrings of `CustomInner` / `CustomNorm` / `CustomDist` demand). -/
+
+/-- `(B x)_i = Σ_{j<n} B i j * x j` -/
+def matVec (n : Nat) (B : Nat → Nat → K) (x : Nat → K) : Nat → K :=
+  fun i => sumTo n (fun j => B i j * x j)
+
+/-- user inner product `lambda u, v: np.vdot(B @ v, B @ u)`: a non-diagonal Gram-matrix
+inner product `⟨x, y⟩ = y^H (B^H B) x`. -/
+def gramInner (o : IOps K R) (n : Nat) (B : Nat → Nat → K) (x y : Nat → K) : K :=
+  innerDefault o n (matVec n B x) (matVec n B y)
+
+/-- user norm `lambda u: np.max(w * np.abs(u))` (weighted max norm). -/
+def wMaxNorm (abs : K → R) (n : Nat) (w : Nat → R) (x : Nat → K) : R :=
+  maxTo n (fun i => w i * abs (x i))
+
+/-- user metric `lambda u, v: min(cap, np.sum(w * np.abs(u - v)))`: a bounded metric that
+does not come from a norm. -/
+def capDist [Min R] (abs : K → R) (n : Nat) (w : Nat → R) (cap : R) (x y : Nat → K) : R :=
+  min cap (sumTo n (fun i => w i * abs (x i - y i)))
+
+end custom
+
 end OdlModel.Weighting
